@@ -38,20 +38,20 @@ theorem DEnd.micro : ∀ rt, MReach rt → ∀ s, DEndP s (getS rt s) rt.client 
   · intro s a ha rt hr hg h
     refine all_setS_cl DEndP rt s _ ?_ h
     intro he hm hF
-    rw [(src_keeps_script s a ha _).2] at he; rw [src_keeps_F s a ha] at hF
-    exact DEnd.src s rt.client rt.state a ha _ hg (TInvAll.micro rt hr s) (DUse.micro rt hr s he hm) (DLog.micro rt hr s he hm)
-      (DId.micro rt hr s he hm hF) he hF (h s he hm hF)
+    rw [src_keeps_F s a ha] at hF
+    exact DEnd.src s rt.client rt.state a ha _ hg (TInvAll.micro rt hr s) (DUse.micro rt hr s (Here.intro _) hm) (DLog.micro rt hr s (Here.intro _) hm)
+      (DId.micro rt hr s (Here.intro _) hm hF) hF (h s (Here.intro _) hm hF)
   · intro s a ha rt hr hg h
     refine all_setS_cl DEndP rt s _ ?_ h
     intro he hm hF
-    rw [(flt_keeps_script a ha _).2] at he; rw [flt_keeps_F a ha] at hF
-    exact DEnd.flt s rt.client rt.state a ha _ hg (TInvAll.micro rt hr s) (DUse.micro rt hr s he hm) (h s he hm hF)
+    rw [flt_keeps_F a ha] at hF
+    exact DEnd.flt s rt.client rt.state a ha _ hg (TInvAll.micro rt hr s) (DUse.micro rt hr s (Here.intro _) hm) (h s (Here.intro _) hm hF)
   · intro s a ha rt hr hg h
     refine all_setS_cl DEndP rt s _ ?_ h
     intro he hm hF
-    rw [(snk_keeps_script s a ha _).2] at he; rw [snk_keeps_F s a ha] at hF
-    exact DEnd.snk s rt.client rt.state a ha _ hg (TInvAll.micro rt hr s) (DUse.micro rt hr s he hm) (DLog.micro rt hr s he hm)
-      (DId.micro rt hr s he hm hF) (h s he hm hF)
+    rw [snk_keeps_F s a ha] at hF
+    exact DEnd.snk s rt.client rt.state a ha _ hg (TInvAll.micro rt hr s) (DUse.micro rt hr s (Here.intro _) hm) (DLog.micro rt hr s (Here.intro _) hm)
+      (DId.micro rt hr s (Here.intro _) hm hF) (h s (Here.intro _) hm hF)
   · intro a ha rt hr hg h
     exact client_families DEnd.Kept DEnd.client_base DEnd.client_mon DEnd.client_cfg DEnd.client_start DEnd.client_err
       DEnd.client_stop DEnd.client_acc DEnd.client_flush a ha rt (TInvAll.micro rt hr) (DUse.micro rt hr) (DLog.micro rt hr) (DId.micro rt hr) hg h
